@@ -467,13 +467,18 @@ func (g *G) Build(kind, variant string, optional []string, depth int, decorate b
 }
 
 func (g *G) pickXOrder() wire.V {
-	switch g.R.Intn(6) {
+	switch g.R.Intn(9) {
 	case 0:
 		return wire.StrV("first")
 	case 1:
 		return wire.NumV("1.5")
 	case 2:
 		return wire.NumV("-1")
+	case 3:
+		// negative ranks are ranks like any other (only a MISSING x-order reads as -1 inside the library)
+		return wire.NumV(fmt.Sprint(-2 - g.R.Intn(3)))
+	case 4:
+		return wire.StrV(fmt.Sprint(g.R.Intn(3) - 1)) // numerals given as strings
 	}
 	return wire.NumV(fmt.Sprint(g.R.Intn(3)))
 }
